@@ -20,7 +20,7 @@ CHECKS = {
         "released later), clock.schedule_interval tasks and the timer device driven by its "
         "control events, with time choices on-time / late wake-up / before the deadline; a reference model is "
         "compared after every transition.",
-   note="Trusted: virtual loop, reference models in props/c13.py. Bounds: BFS depth 5-7 (quick) / 6-10 (thorough), "
+   note="Trusted: virtual loop, reference models in props/c13.py. Bounds: BFS depth 4-7 (quick) / 6-10 (thorough), "
         "names {a,b,c,m}, durations {100,200} ms, intervals {0.25,0.5} s; time by representative points.",
    technique="explicit-state BFS of the implementation with a reference model (replay + fork snapshots)",
    ref="3/C13"),
